@@ -4,6 +4,7 @@
 mod c07;
 mod c08;
 mod c03;
+mod c02;
 mod enc;
 mod out;
 mod rng;
@@ -53,6 +54,7 @@ fn main() {
         "C07" => c07::run(&a),
         "C08" => c08::run(&a),
         "C03" => c03::run(&a),
+        "C02" => c02::run(&a),
         _ => {
             eprintln!("no harness for {}", prop);
             std::process::exit(2);
